@@ -20,11 +20,13 @@
     disabled_no_exec_object shapes_disabled_no_exec_object shapes_enabled_exec_exists
     skeleton_sees_every_suite shapes_cover_nesting shapes_probed
     plain_shapes_flag_independent pickle_preserves_flags
+    memo_history_disabled_no_exec memo_cache_stays_code_free memo_later_load_code_free
 -/
 import Genshi.Lemmas.ExecLru
 import Genshi.Lemmas.ExecRaise
 import Genshi.Lemmas.ExecParse
 import Genshi.Lemmas.ExecShape
+import Genshi.Lemmas.ExecMemo
 namespace Genshi.Props.C14
 open Genshi.Exec Genshi.Gen.Exec
 
@@ -936,5 +938,53 @@ example : ∃ r ∈ shapeRows, r.flag = false ∧ r.way = .pickledHost := by dec
 example : ∃ r ∈ plainRows, r.way = .incl .text true ∧ r.outOff.isSome := by decide +kernel
 
 end Shapes
+
+
+/-! ### wave 4: the bounded loader cache with `_prepared` memoisation as state
+    (`Genshi/Model/ExecMemo.lean`: template objects have an identity and keep their prepared stream;
+    tied to the real loader by the stream `memo-history`, cache CONTENTS included) -/
+section Memo
+
+/-- through a loader whose flag is off, any history of load-and-render calls (any names, any class
+    asked for, any `max_cache_size` incl. 0 and 1, any graph, both include modes, any fuel) never
+    moves the sentinel — also when templates are prepared once and kept, prepared as part of another
+    template, evicted while being prepared, or parsed again under the same key -/
+theorem memo_history_disabled_no_exec (cap fuel pf : Nat) (fs : FS) (ar : Bool) (hist : List (Nat × Cls)) :
+    (runHistoryM cap fuel pf fs (mst0 false ar) hist).sentinel = [] :=
+  (runHistoryM_clean cap fuel pf fs hist _ (mst0_clean ar)).2
+
+/-- at the end of every such history every cached template object is free of code blocks — its
+    parsed items and, when it is prepared, its memoised prepared stream (which holds the spliced
+    streams of everything it inlined) -/
+theorem memo_cache_stays_code_free (cap fuel pf : Nat) (fs : FS) (ar : Bool) (hist : List (Nat × Cls)) :
+    ∀ e ∈ (runHistoryM cap fuel pf fs (mst0 false ar) hist).cache,
+      noCode e.2.t.items = true ∧ ∀ ps, e.2.prep = some ps → pNoCode ps = true :=
+  (runHistoryM_clean cap fuel pf fs hist _ (mst0_clean ar)).1.2
+
+/-- after every such history, whatever a later load returns — a cached, possibly prepared object or
+    a fresh parse — is free of code blocks, and the load does not move the sentinel -/
+theorem memo_later_load_code_free (cap fuel pf : Nat) (fs : FS) (ar : Bool) (hist : List (Nat × Cls))
+    (name : Nat) (c : Cls) (abs : Bool) (st' : MSt) (o : MT)
+    (h : loadM cap fs (runHistoryM cap fuel pf fs (mst0 false ar) hist) name c abs = .ok (st', o)) :
+    noCode o.t.items = true ∧ (∀ ps, o.prep = some ps → pNoCode ps = true) ∧ st'.sentinel = [] := by
+  obtain ⟨hc, hs⟩ := runHistoryM_clean cap fuel pf fs hist _ (mst0_clean ar)
+  obtain ⟨_, ho, hs'⟩ := loadM_clean cap fs _ st' name c abs o hc h
+  exact ⟨ho.1, ho.2, hs'.trans hs⟩
+
+-- non-vacuity: memoisation is state.  0 inlines 1 (bound 2): after rendering 0 twice the cache is
+-- [0, 1] with 0 prepared; the second render performed no load (1 was not touched again: with 1
+-- loaded in between it would sit in front otherwise) — and with the flag on a block runs.
+def memoFs : FS := [(0, ⟨.markup, [.text 1, .incl 1 .same false]⟩), (1, ⟨.markup, [.text 2]⟩),
+                    (2, ⟨.markup, [.code 9 1]⟩)]
+example : (runHistoryM 2 5 5 memoFs (mst0 false false) [(0, .markup), (1, .markup), (0, .markup)]).cache.map
+    (fun e => (e.1.1, e.2.prep.isSome)) = [(0, true), (1, true)] := by decide
+example : (runHistoryM 2 5 5 memoFs (mst0 false true) [(0, .markup), (1, .markup), (0, .markup)]).cache.map
+    (fun e => (e.1.1, e.2.prep.isSome)) = [(1, true), (0, true)] := by decide
+example : (runHistoryM 1 5 5 memoFs (mst0 true false) [(0, .markup), (2, .markup), (2, .markup)]).sentinel = [9, 9] := by
+  decide
+example : (runHistoryM 1 5 5 memoFs (mst0 false false) [(0, .markup), (2, .markup), (2, .markup)]).sentinel = [] := by
+  decide
+
+end Memo
 
 end Genshi.Props.C14
